@@ -1,0 +1,9 @@
+//go:build !verif
+
+package keeper
+
+import (
+	sdk "github.com/cosmos/cosmos-sdk/types"
+)
+
+func verifPositionProcessed(ctx sdk.Context, where string, owner string, id uint64) {}
